@@ -390,6 +390,24 @@ def shard_transforms(arg):
         p = os.path.join(wd, "T.txt")
         np.savetxt(p, M)
         attempt(p, valid, M, name + " / txt")
+        # the same text matrix in other whitespace layouts (a text matrix is
+        # whitespace separated: fixed-width columns, tabs, indentation,
+        # trailing blanks, Windows line ends, no final newline)
+        rows = [[repr(float(v)) for v in row] for row in M]
+        layouts = {
+            "padded": "\n".join(" ".join("%26s" % v for v in r)
+                                for r in rows) + "\n",
+            "tabs": "\n".join("\t".join(r) for r in rows) + "\n",
+            "indented+trailing": "\n".join("  " + " ".join(r) + "  "
+                                           for r in rows) + "\n",
+            "crlf, no final newline": "\r\n".join(" ".join(r) for r in rows),
+            "comment line": "# T\n" + "\n".join(" ".join(r)
+                                               for r in rows) + "\n",
+        }
+        for lname, text in layouts.items():
+            with open(p, "w", newline="") as f:
+                f.write(text)
+            attempt(p, valid, M, name + " / txt " + lname)
     q = geom.rot_to_quat_wxyz(R)
     for s in (None, 0.5, 2.0):
         d = {"x": t[0], "y": t[1], "z": t[2], "qw": q[0], "qx": q[1],
